@@ -19,7 +19,10 @@ for sid in ids:
     props = [prop] + [p for p in also if p != prop]
     if sh("git -C /repo diff --quiet").returncode != 0:
         print("/repo not clean"); sys.exit(3)
-    r = sh("git -C /repo apply /verif/seeded/%s/patch.diff" % sid)
+    pf = "/verif/seeded/%s/patch.rebased.diff" % sid
+    if not os.path.exists(pf):
+        pf = "/verif/seeded/%s/patch.diff" % sid
+    r = sh("git -C /repo apply %s" % pf)
     if r.returncode != 0:
         r = sh("cd /repo && patch -p1 --fuzz=3 < /verif/seeded/%s/patch.diff" % sid)
         if r.returncode != 0:
